@@ -13,7 +13,8 @@ def key_universe(rng, n, kind):
         base = [bytes([0x61 + i]) + b'\0' for i in range(max(2, n // 2))]
         return (base + [k.upper() for k in base])[:max(n, 4)]
     if kind == 'bin':      # binary keys of differing lengths, embedded NULs, prefixes of each other
-        base = [b'\0', b'\0\0', b'a', b'a\0', b'a\0b', b'ab', b'\xff', b'\xff\0', b'\x80', b'\x7f\xff', b'b', b'ba', b'\0\xff']
+        base = [b'\0', b'\0\0', b'a', b'a\0', b'a\0b', b'ab', b'\xff', b'\xff\0', b'\x80', b'\x7f\xff', b'b', b'ba', b'\0\xff',
+                b'8bytekey', b'\x01\0\0\0\0\0\0\0', b'\0\0\0\0\0\0\0\x01']       # 8 bytes = sizeof(size_t): see the `get` op of the harness
         out = list(base)
         while len(out) < n:
             out.append(bytes(rng.randrange(256) for _ in range(rng.randrange(1, 6))))
@@ -43,6 +44,8 @@ def gen_history(rng, nops, keys, mix):
             ops.append('put %s %s' % (hexs(key), hexs(rand_val(rng))))
         elif k in ('get', 'remove'):
             ops.append('%s %s' % (k, hexs(key)))
+        elif k == 'size' and rng.random() < 0.5:
+            ops.append('otherwalk %d' % rng.choice([0, 1, 3, 100, 253, 254, 255, 256, 257]))
         elif k == 'walk':
             n = rng.choice([0, 1, 2, 3, len(keys) // 2, len(keys) + 2, len(keys) + 2, len(keys) + 2])
             if rng.random() < 0.25 and key:      # the same walk with reads (get, find-min/max, size) between the steps
@@ -356,6 +359,15 @@ def tree_check(ctx, props, focus, replay=None):
             ops += ['put %s 02' % hexs(bytes([0x41 + j, 0])) for j in range(rng.choice([1, 3]))]
         ops += ['walk 1'] * 255 + ['walk %d' % (len(keys) + 6)]
         hists.append((['cmp byte', 'dump 1', 'settid %d' % rng.choice([200, 250, 254])], ops))
+    # a node released by remove must not bring an old mark back: complete walk, remove, drive the sequencer around (r walk starts,
+    # on this table or on another one), insert NEW keys, walk completely
+    for r in ([250, 252, 253, 254, 255, 256, 257, 506, 509, 510, 511, 512] if not quick else [252, 253, 254, 255, 256, 510]):
+        keys = key_universe(rng, 8, 'small')
+        ops = ['put %s 01' % hexs(k) for k in keys[:6]]
+        ops += ['walk 9', 'remove %s' % hexs(keys[2]), 'remove %s' % hexs(keys[4])]
+        ops += (['walk 1'] * r) if r % 2 else (['walk 1'] * (r // 2) + ['otherwalk %d' % (r // 2)] + ['walk 1'] * (r - r // 2 - 1) + ['otherwalk 1'])
+        ops += ['put %s 02' % hexs(keys[6]), 'walk 9', 'put %s 03' % hexs(keys[7]), 'walk 9', 'put %s 04' % hexs(keys[2]), 'walk 9']
+        hists.append((['cmp byte', 'dump 1'], ops))
     # large histories, structure summarised
     for i in range(1 if quick else 6):
         nk = 600 if quick else rng.choice([1000, 3000, 5000])
